@@ -40,7 +40,7 @@ def run_mc(I, prov, n_rows, util, iterations, seed, forced=None, scramble=None):
     rec = RecordingRandomState(imp.randomstate, forced)
     imp.randomstate = rec
     X = np.arange(n_rows, dtype=float).reshape(-1, 1)
-    res = list(np.asarray(imp.fit(X, np.zeros(n_rows, dtype=int), provenance=prov).score(np.zeros((1, 1)), np.zeros(1, dtype=int)), dtype=float))
+    res = list(np.asarray(tables.fit_ids(util, imp, X, prov).score(np.zeros((1, 1)), np.zeros(1, dtype=int)), dtype=float))
     return res, rec
 
 
@@ -84,6 +84,9 @@ def run(ctx):
         if len(perms) != iterations or any(sorted(p) != list(range(n_units)) for p in perms):
             ctx.mismatch("permutations are not drawn one per iteration from the instance's own generator", case, impl=dict(drawn=len(perms), other_rng_calls=rec.other_calls[:5]),
                          spec=iterations)
+            continue
+        if util.bad:
+            ctx.mismatch("the utility was handed labels / metadata of rows other than the rows present for the prefix", case, impl=util.bad[:3])
             continue
         want = estimator(n_units, exprs, table, null, perms)
         v_all = tables.value_of(table, tables.rows_present(exprs, [1] * n_units), null)
